@@ -92,3 +92,43 @@ if __name__ == "__main__":
         sys.exit(0 if verify(sys.argv[2], sys.argv[3]) else 1)
     elif cmd == "detect":
         detect(sys.argv[2], sys.argv[3], sys.argv[4:])
+
+
+RELATED = [
+    ("concept_drift/stepd", ["C05", "C01", "C02", "C16", "C17", "C12"]), ("concept_drift/ddm", ["C05", "C01", "C02", "C16", "C17", "C12"]),
+    ("concept_drift/eddm", ["C05", "C01", "C02", "C16", "C17", "C12"]), ("page_hinkley", ["C04", "C01", "C02", "C17", "C11", "C14"]),
+    ("cusum", ["C04", "C01", "C02", "C17", "C14", "C15"]), ("change_detection/adwin", ["C03", "C01", "C17", "C16", "C12"]),
+    ("adwin_accuracy", ["C03", "C16", "C01"]), ("lfr", ["C06", "C01", "C16", "C17"]),
+    ("histogram_density", ["C07", "C01", "C02", "C17", "C18", "C14"]), ("hdddm", ["C07", "C01", "C02"]), ("cdbd", ["C07", "C14", "C01"]),
+    ("KDQTreePartitioner", ["C08", "C09", "C18", "C02", "C01"]), ("data_drift/kdq_tree", ["C09", "C01", "C02", "C17", "C18", "C14"]),
+    ("NNSpacePartitioner", ["C10", "C02", "C17", "C18"]), ("nndvi", ["C10", "C01", "C02", "C17", "C18", "C15"]),
+    ("pca_cd", ["C11", "C01", "C14"]), ("election", ["C13", "C12"]), ("ensemble/ensemble", ["C12"]),
+    ("menelaus/detector", ["C14", "C15", "C16", "C01", "C12"]), ("md3", ["C19", "C01"]), ("injection", ["C20", "C15"]),
+]
+
+
+def matrix(names):
+    """re-create every seeded change from its patch in a scratch worktree and run the related checks against it"""
+    for name in names:
+        d = os.path.join(VERIF, "seeded", name)
+        m = load(name)
+        wt = "/tmp/seedm/" + name
+        sh("git -C /repo worktree remove --force %s" % wt)
+        rc, o = sh("git -C /repo worktree add -q --detach %s HEAD" % wt)
+        rc, o = sh("git apply %s" % os.path.join(d, "patch.diff"), cwd=wt)
+        if rc != 0:
+            print(name, "patch does not apply:", o[:200])
+            continue
+        props = [m["property"]]
+        for key, ps in RELATED:
+            if any(key in f for f in m.get("files", [])):
+                props += [p for p in ps if p not in props]
+        m["detected_by"] = {}
+        save(name, m)
+        detect(wt, name, props)
+        sh("git -C /repo worktree remove --force %s" % wt)
+
+
+if __name__ == "__main__" and sys.argv[1] == "matrix":
+    names = sys.argv[2:] or sorted(n for n in os.listdir(os.path.join(VERIF, "seeded")) if os.path.isdir(os.path.join(VERIF, "seeded", n)))
+    matrix(names)
